@@ -12,6 +12,7 @@ import json
 import numpy as np
 
 import graphhist as gh
+from graphhist import catalogue_sweep as gh_sweep
 import progs
 from common import HarnessError, known_findings, rng_for, run_impl_parallel
 
@@ -202,12 +203,32 @@ def run(rep, work, tier, seed, props, replay=None):
     if bad and not (ident_bad or inv_bad or n_viol):
         k = sorted(bad, key=lambda k: len(mb[k].stmts))[0]
         rep.violation({"kind": "seeded backward differs from Model/GraphP.v", "stmts": mb[k].stmts, "impl": mr[k]})
+    # every operation of the catalogue with uniform float32 and MIXED operand precisions: each stored gradient is an ndarray of its tensor's shape and dtype
+    gt_tasks, gt_res, gt_bad, gt_known = [], [], 0, 0
+    if replay is None or "catalog_index" in (replay or {}):
+        gt_tasks, gt_res = gh_sweep("gradtype", ([0, 1, 2, 3, 4] if tier == "thorough" else [0, 1, 2]) if replay is None else [replay.get("mix", 0)], seed, "mix", replay)
+        shown = set()
+        for t, r in zip(gt_tasks, gt_res):
+            for m in r.get("msgs", []):
+                if r["label"].startswith("gru") and m.startswith("result: .grad has") and "gru_hidden_grad_shape" in kf:
+                    gt_known += 1
+                    continue
+                if r["label"].startswith("gru") and "NotImplementedError: float16" in m:
+                    continue        # numba has no float16: the GRU layer refuses it loudly
+                gt_bad += 1
+                key = r["label"].split("(")[0].split(" ")[0]
+                if key not in shown and len(shown) < 6:
+                    shown.add(key)
+                    rep.violation({"kind": "operation sweep: %s -- %s" % (r["label"], m), "catalog_index": t["index"], "mix": t["mix"], "seed": t["seed"]})
+        if gt_known and "gru_hidden_grad_shape" in kf:
+            rep.known("gru_hidden_grad_shape", "GRUnit.backward stores a (T,N,D) gradient on the (T+1,N,D) hidden-state tensor (%d catalogue runs)" % gt_known)
     if not props["ok"]:
         rep.violation({"kind": "proof obligations of Props/C14.v no longer check", "broken": "Props/C14.v", "log": props["log"][-1500:]},
                       no_input=not (ident_bad or inv_bad or n_viol or bad))
     nontrivial = set(json.dumps(t, sort_keys=True) for t in seed_tasks if t["sg"] != t["sL"]) | set(json.dumps(v[2]) for _, _, v in quads)
     rep.coverage.update({
-        "evaluations": len(seed_tasks) + len(red_tasks) + len(layer_tasks) + len(cases) + len(zero_d),
+        "evaluations": len(seed_tasks) + len(red_tasks) + len(layer_tasks) + len(cases) + len(zero_d) + len(gt_res),
+        "operation_gradtype_sweep": {"entries_x_mixes": len(gt_res), "messages": gt_bad, "known_finding_hits": gt_known},
         "zero_d_programs": len(zero_d),
         "distinct_nontrivial": len(nontrivial),
         "rule": "lattices: all pairs of shapes of rank <= 3 over extents {1,2,3} (plus three empty shapes) for (L, seed) and for (gradient, variable) -- complete; seed kinds {array, Tensor, list, scalar, int, float32} x "
